@@ -2,6 +2,9 @@ import PV.C11.Model
 import PV.C11.Spec
 import PV.C11.Fragment
 import PV.C11.Lemmas
+import PV.C11.Induction
+import PV.C11.InductionX
+import PV.C11.FragmentX
 import PV.Gen.C11Tables
 /-
   C11 — property theorems.  "Unparsing an expression and parsing it again gives the same expression."
@@ -196,26 +199,43 @@ def parse_unparse_full : Prop :=
   ∀ (p : Nat → Bool) (e : Expr), WF e →
     ∃ n, ∀ fuel, n ≤ fuel → parseRef fuel (toks (display p e)) = some (eraseCtx e, [])
 
-/-- **Round trip on the fragment.**  For every expression built from names, constants of every kind,
-    attribute / single-index / positional-call trailers, list / tuple / set / `key: value` dict displays,
-    `await`, `yield`, `yield from`, `and`/`or` chains, the four unary and thirteen binary operators, comparison
-    chains and conditional expressions — nested arbitrarily, of any size — the reference parser reads the token
-    sequence of the unparser model's output back as the same tree and consumes all of it.
-    (`p` is the printable-character table; it only influences the text of string tokens.) -/
-theorem parse_unparse_partial (p : Nat → Bool) (e : Expr) (h : InFragment e) :
+/-- **Round trip on the extended fragment.**  For every expression built from names, constants of every kind,
+    attribute / subscript / call trailers — subscripts with slices, tuples of slices, starred elements and bare named
+    expressions, calls with positional, starred, keyword and `**` arguments and the bare generator argument —,
+    list / tuple / set displays with starred elements, dict displays with `key: value` and `**value` entries,
+    `await`, `yield` (also with a starred value), `yield from`, `and`/`or` chains, the four unary and thirteen binary
+    operators, comparison chains, conditional expressions, **lambda** with every parameter kind (positional-only `/`,
+    defaults, `*args`, keyword-only, `**kw`), the four **comprehension** forms with any number of `for` / `if` clauses,
+    `async` and bare-tuple / starred targets, and **named expressions** — nested arbitrarily, of any size — the
+    reference parser reads the token sequence of the unparser model's output back as the same tree and consumes all
+    of it.  (`p` is the printable-character table; it only influences the text of string tokens.)
+    Side conditions of `InFragmentX` (`fx`, lean/PV/C11/Fragment.lean) beyond the grammar's shape: the checks the
+    parser itself makes when it builds a lambda (no default-less positional parameter after a defaulted one, distinct
+    parameter names) and a call (distinct keyword names); comprehension targets are `Expression`-level operands
+    (what the parser reads there). -/
+theorem parse_unparse_partial (p : Nat → Bool) (e : Expr) (h : InFragmentX e) :
     ∃ n, ∀ fuel, n ≤ fuel → parseRef fuel (toks (display p e)) = some (eraseCtx e, []) := by
-  have := (rt_all p e h).rt 1 [] (Nat.le_refl _) (by omega) (Stop.nil _)
+  have := (goodX p e h).good.rt 1 [] (Nat.le_refl _) (by omega) (Stop.nil _)
   rw [parseAt_1, List.append_nil] at this
   exact this
 
 /-- the same statement with an operand context: at every level, followed by any input that does not
     continue the expression -/
+theorem parse_unparse_partial_atX (p : Nat → Bool) (e : Expr) (h : InFragmentX e) (lvl : Nat)
+    (rest : List Tok) (h1 : 1 ≤ lvl) (h15 : lvl ≤ 15) (hs : Stop lvl rest) :
+    ∃ n, ∀ fuel, n ≤ fuel → parseAt lvl fuel (toks (unparse p e lvl) ++ rest) = some (e, rest) :=
+  (goodX p e h).good.rt lvl rest h1 h15 hs
+
+/-- … and on the operator core `InFragment` (the form PV.C08.Paren and PV.Prog.RenderLemmas use) -/
 theorem parse_unparse_partial_at (p : Nat → Bool) (e : Expr) (h : InFragment e) (lvl : Nat)
     (rest : List Tok) (h1 : 1 ≤ lvl) (h15 : lvl ≤ 15) (hs : Stop lvl rest) :
     ∃ n, ∀ fuel, n ≤ fuel → parseAt lvl fuel (toks (unparse p e lvl) ++ rest) = some (e, rest) :=
   (rt_all p e h).rt lvl rest h1 h15 hs
 
-/-- `-2 ** (-x) < (a if b else c) or not y['k'].g((1,), [], {z, b'\\x00'})` — in the fragment: unary/power
+/-- the operator core lies in the extended fragment -/
+theorem inFragment_sub (e : Expr) (h : InFragment e) : InFragmentX e := inFrag_fx e h
+
+/-- `-2 ** (-x) < (a if b else c) or not y['k'].g((1,), [], {z, b'\\x00'})` — in the operator core: unary/power
     interplay, a parenthesised conditional, a boolean chain, trailers, displays, literals -/
 def sampleExpr : Expr :=
   .boolOp .or
@@ -225,8 +245,31 @@ def sampleExpr : Expr :=
        [.tuple [.const (.int 1)], .list [], .set [.name [122], .const (.bytes [0])]] [])]
 
 example : InFragment sampleExpr := by decide
+example : InFragmentX sampleExpr := by decide
 example : WF sampleExpr := by decide
 example : parseRef 64 (toks (display (fun _ => true) sampleExpr)) = some (sampleExpr, []) := by rfl
+
+/-- `f(*a, k=lambda p, /, q=1, *r, s, t=2, **u: [x async for x, *y in z if w if v for m in n], **o)[a:b, ::c, *d, (e := 1)]`
+    — in the extended fragment: starred / keyword / `**` arguments, a lambda with every parameter kind, a list
+    comprehension with two clauses (the first `async`, with a bare tuple target containing a starred name and two
+    conditions), a tuple index made of two slices, a starred element and a named expression -/
+def sampleExprX : Expr :=
+  .subscript
+    (.call (.name [102]) [.starred (.name [97])]
+      [.mk (some [107])
+         (.lambda [.mk [112] none] [.mk [113] (some (.const (.int 1)))] (some [114])
+            [.mk [115] none, .mk [116] (some (.const (.int 2)))] (some [117])
+            (.listComp (.name [120])
+              [.mk (.tuple [.name [120], .starred (.name [121])]) (.name [122]) [.name [119], .name [118]] true,
+               .mk (.name [109]) (.name [110]) [] false])),
+       .mk none (.name [111])])
+    (.tuple [.slice (some (.name [97])) (some (.name [98])) none, .slice none none (some (.name [99])),
+             .starred (.name [100]), .namedExpr (.name [101]) (.const (.int 1))])
+
+example : InFragmentX sampleExprX := by decide
+example : ¬ InFragment sampleExprX := by decide
+example : WF sampleExprX := by decide
+example : parseRef 200 (toks (display (fun _ => true) sampleExprX)) = some (sampleExprX, []) := by rfl
 
 mutual
 theorem inFrag_wf_aux : (e : Expr) → inFrag e = true → ∀ pos, wf pos e = true
@@ -277,13 +320,22 @@ theorem inFragList_wf_aux : (es : List Expr) → inFragList es = true → ∀ po
     simp [wfList, inFrag_wf_aux e h.1, inFragList_wf_aux es h.2]
 end
 
-/-- every expression of the fragment is a tree the parser can produce: `parse_unparse_partial` is an
-    instance of `parse_unparse_full` -/
+/-- every expression of the operator core is a tree the parser can produce -/
 theorem inFrag_wf (e : Expr) (h : InFragment e) : WF e := inFrag_wf_aux e h .elem
 
-/-- **Rendering is a fixed point** (corollary): on the fragment, rendering the re-parsed tree gives the
+/-- every expression of the extended fragment is a tree the parser can produce: `parse_unparse_partial` is an
+    instance of `parse_unparse_full` -/
+theorem inFragX_wf (e : Expr) (h : InFragmentX e) : WF e := by
+  have h1 := fx_wf_aux e .plain h
+  cases e with
+  | starred v => simp [InFragmentX, fx] at h
+  | slice a b c => simp [InFragmentX, fx] at h
+  | yield v => cases v <;> simpa [WF, wf, posOf] using h1
+  | _ => simpa [WF, wf, posOf] using h1
+
+/-- **Rendering is a fixed point** (corollary): on the extended fragment, rendering the re-parsed tree gives the
     same text. -/
-theorem unparse_fixpoint (p : Nat → Bool) (e : Expr) (h : InFragment e) :
+theorem unparse_fixpoint (p : Nat → Bool) (e : Expr) (h : InFragmentX e) :
     ∃ n, ∀ fuel, n ≤ fuel → ∃ e', parseRef fuel (toks (display p e)) = some (e', []) ∧
       displayText p e' = displayText p e := by
   obtain ⟨n, hn⟩ := parse_unparse_partial p e h
